@@ -20,6 +20,11 @@ class StepCap(BaseException):
     pyjelly's frames, and neither pyjelly nor a check's ``except Exception`` may mistake it for a parser error."""
 
 
+class SkipRun(Exception):
+    """The run cannot be judged by this check (e.g. the real writer refused the generated input: whether that refusal
+    is right is the business of C01/C02/C03/C18, not of a check that only needs some valid bytes to work on)."""
+
+
 class Deadlock(Exception):
     """No task can make progress although someone is waiting."""
 
